@@ -37,7 +37,7 @@ type Env struct {
 	Aggr map[*Node]any
 }
 
-var intRe = regexp.MustCompile(`^-?[0-9]{1,15}$`)
+var intRe = regexp.MustCompile(`^-?[0-9]{1,19}$`) // ParseInt refuses what does not fit
 var floatRe = regexp.MustCompile(`^-?[0-9]{1,12}(\.[0-9]{1,6})?$`)
 
 // ReadInt is the documented "decimal reading" of a text as integer.
@@ -103,6 +103,9 @@ func checkFloat(v float64) (float64, error) {
 func numAsFloat(v any) (float64, bool) {
 	switch x := v.(type) {
 	case int64:
+		if x > 1<<53 || x < -(1<<53) {
+			return 0, false // not exactly a float: no reference value
+		}
 		return float64(x), true
 	case float64:
 		return x, true
@@ -168,6 +171,12 @@ func arith(op string, a, b any) (any, error) {
 	ai, aok := a.(int64)
 	bi, bok := b.(int64)
 	if aok && bok {
+		if _, err := checkInt(ai); err != nil {
+			return nil, err
+		}
+		if _, err := checkInt(bi); err != nil {
+			return nil, err
+		}
 		switch op {
 		case "+":
 			return checkInt(ai + bi)
@@ -528,7 +537,11 @@ func evalCall(n *Node, env *Env) (any, error) {
 		case float64:
 			return x, nil
 		case int64:
-			return float64(x), nil
+			f, ok := numAsFloat(x)
+			if !ok {
+				return nil, domain("float(%d) is not exact", x)
+			}
+			return f, nil
 		case string:
 			v, ok := ReadFloat(x)
 			if !ok {
